@@ -79,6 +79,7 @@ func (w *WatcherHub) DeleteWatcher(sub chan []*proto.Event, lock bool) {
 // Stream push events to watchers.
 func (w *WatcherHub) Stream(input chan []*proto.Event) {
 	for item := range input {
+		var slow []chan []*proto.Event
 		w.RLock()
 		for sub := range w.subs {
 			select {
@@ -88,10 +89,15 @@ func (w *WatcherHub) Stream(input chan []*proto.Event) {
 				klog.InfoS("drop slow consumer", "chan", sub, "bufSize", watchBuffer)
 				w.metricCli.EmitCounter("drop.slow.watcher", 1)
 				verifhook.Gate("hub.slow")
-				go w.DeleteWatcher(sub, true)
+				slow = append(slow, sub)
 			}
 		}
 		w.RUnlock()
+		// close the dropped subscribers before the next batch is fanned out: a subscriber that
+		// missed this batch must never receive a later one
+		for _, sub := range slow {
+			w.DeleteWatcher(sub, true)
+		}
 	}
 
 	w.Lock()
